@@ -22,7 +22,9 @@ def run(check):
     M = Models(check)
     check.run_rule('C19.R1', lambda c: rule_partial_siblings(c, M.mask(), 'C19.R1'))
     check.run_rule('C19.R2', lambda c: rule_mask_names(c, M.mask(), {
-        'table': 'C19.R2', 'index': None, 'kinds': 'C19.R2', 'src': 'C19.R2', 'pdefault': 'C19.R2'}))
+        'table': 'C19.R2', 'index': 'C19.R2', 'kinds': 'C19.R2', 'src': 'C19.R2', 'pdefault': 'C19.R2'}))
+    from ._shared import rule_posindex
+    check.run_rule('C19.R2p', lambda c: rule_posindex(c, 'C19.R2'))
     check.run_rule('C19.R3', lambda c: rule_mask_partial(c, M.mask(), 'C19.R3'))
     check.run_rule('C19.R4', lambda c: rule_partial_discovery(c, 'C19.R4'))
     check.run_rule('C19.R4b', lambda c: rule_hint_protocol(c, 'C19.R4'))
